@@ -357,9 +357,17 @@ def run_history(p, path, snoop, delivery="whole", cuts=None, chooser=None, judge
         except DM.Missing as e:
             return [("declared-group-lost", "depth=%d" % p["depth"], str(e))], None, {}
         info = {}
+        paused_eps = []
         for k, op in enumerate(path):
             last = k == len(path) - 1
-            if last:
+            if delivery == "backpressure" and not paused_eps and k >= len(path) - 2:
+                # the clients read slowly: from here on the server's writes wait in drain() (flow control paused) while
+                # the last two operations publish; afterwards the clients catch up and must converge all the same
+                for l in run.w.links:
+                    l.server_ep.pause()
+                    l.client_ep.pause()
+                    paused_eps += [l.server_ep, l.client_ep]
+            if last and delivery != "backpressure":
                 run.w.delivery = delivery
                 run.w.chooser = chooser
                 if cuts is not None:
@@ -377,6 +385,10 @@ def run_history(p, path, snoop, delivery="whole", cuts=None, chooser=None, judge
             run.w.settle()
             if r == "skipped":
                 info["skipped"] = True
+        for ep in paused_eps:
+            ep.resume()
+        if paused_eps:
+            run.w.settle()
         if run.w.links:
             s2c = run.w.links[0].s2c
             info["s2c_total"] = s2c.delivered
@@ -440,6 +452,12 @@ def run_shard(shard):
                 # delivery schedules for this transition (network client only)
                 if snoop or info.get("skipped"):
                     continue
+                if not snoop and not info.get("skipped"):
+                    f5, c5, _ = run_history(p, newpath, snoop, delivery="backpressure")
+                    res["executions"] += 1
+                    record(newpath, snoop, {"delivery": "backpressure"}, f5)
+                    if not f5 and c5 != c and p["variant"] != "blob":
+                        record(newpath, snoop, {"delivery": "backpressure"}, [("schedule-dependent-outcome", "variant=%s,delivery=backpressure" % p["variant"], "final state differs from FIFO delivery")])
                 if len(newpath) == 1 or (tier == "thorough" and len(newpath) == 2):
                     for delivery in ("byte", "chunk:7"):
                         f2, c2, _ = run_history(p, newpath, snoop, delivery=delivery)
